@@ -38,7 +38,7 @@ COMPONENTS = {
     "real": ["protocol_code_generator (run per tree)", "generated classes (constructor, properties, serialize, deserialize)", "EoReader/EoWriter"],
     "stub_or_harness": ["history generator", "spec/value generators", "reference spec parser (which members are public)"],
 }
-FAULT_KINDS = ["setattr_attempt", "delattr_attempt", "source_list_mutation", "returned_value_mutation_attempt"]
+FAULT_KINDS = ["sibling_instance_created", "setattr_attempt", "delattr_attempt", "source_list_mutation", "returned_value_mutation_attempt"]
 PROBES = ["packet_write_method", "serialize_into_sanitising_writer", "array_element_mutation_attempt", "array_of_structs", "optional_array_present", "blob_on_deserialized_instance", "case_data_mutated_through_parent",
           "one_shot_iterator_argument", "nested_instance_setattr", "byte_size_setattr", "first_serialize_failed_skipped",
           "tree_rejected", "returned_value_was_mutable"]
@@ -58,6 +58,7 @@ class Instance:
     def __init__(self, te, cls_name, origin, value=None, data=None, iter_mask=0):
         self.te, self.cls_name, self.origin = te, cls_name, origin
         self.sources = []
+        self.siblings = []
         self.iter_count = 0
         if origin == "ctor":
             self.obj = self._build(value, [iter_mask])
@@ -169,6 +170,18 @@ def gen_ops(inst, rng, n):
             ops.append(["setattr", path, attr])
         elif r < 0.62:
             ops.append(["delattr", path, attr])
+        elif r < 0.72:
+            # another instance of the same class comes into being (constructed, or deserialized from a prefix)
+            try:
+                val = valuegen.ValueGen(spec, rng, p_none=0.3).gen_class(spec.classes[inst.cls_name])
+                if rng.random() < 0.5:
+                    ops.append(["sibling_ctor", val])
+                else:
+                    tmp = Instance(inst.te, inst.cls_name, "ctor", val)
+                    data = tmp.serialize()
+                    ops.append(["sibling_deserialize", data[: rng.randrange(0, len(data) + 1)].hex()])
+            except Exception:
+                pass
         elif r < 0.8 and inst.sources:
             ops.append(["mutate_source", rng.randrange(len(inst.sources)), rng.choice(["append", "clear", "replace", "reverse"])])
         else:
@@ -291,6 +304,17 @@ def run_history(inst, ops, res, tr, case, shape):
             if raised != "AttributeError":
                 return viol(f"{name}-allowed", fk, f"{name} of {cls_name}.{attr} on a {inst.origin} instance "
                             f"{'raised ' + raised if raised else 'succeeded'} instead of raising AttributeError")
+        elif name in ("sibling_ctor", "sibling_deserialize"):
+            res.count("fault.sibling_instance_created")
+            res.keys.add(f"{shape}|{inst.origin}|{name}|-")
+            try:
+                if name == "sibling_ctor":
+                    inst.siblings.append(Instance(te, inst.cls_name, "ctor", op[1]).obj)
+                else:
+                    inst.siblings.append(te.bridge.cls(inst.cls_name).deserialize(te.EoReader(bytes.fromhex(op[1]))))
+            except Exception:  # noqa
+                pass
+            tr.ev(step, name)
         elif name == "mutate_source":
             if not inst.sources:
                 continue
